@@ -71,7 +71,7 @@ E_Call(c, k, d) ==
   /\ EnvOK /\ cst[c] = "idle" /\ chand[k]
   /\ cst' = [cst EXCEPT ![c] = "queued"] /\ ck' = [ck EXCEPT ![c] = k] /\ dl' = [dl EXCEPT ![c] = now + d]
   /\ cq' = [cq EXCEPT ![k] = Append(@, c)]
-  /\ y' = YCall(y, c, k, now + d)
+  /\ y' = YCall(y, c, k, now + d, "t", TRUE)
   /\ Log([a |-> "Call", c |-> c, k |-> k, dl |-> d])
   /\ UNCHANGED <<lq, srv, ckey, chand, cdead, closed, cinf, cpend, c2s, s2c, sinf, respq, hs, gate, now, phase>>
 
@@ -146,7 +146,7 @@ S_Read(k) ==
 S_HStart(c) ==
   /\ SysOK /\ hs[c] = "spawned"
   /\ hs' = [hs EXCEPT ![c] = "running"]
-  /\ y' = YHandlerStart(y, ck[c], c, c)
+  /\ y' = YHandlerStart(y, ck[c], c, c, "t", TRUE)
   /\ UNCHANGED <<lq, srv, ckey, chand, cdead, closed, cq, cinf, cpend, c2s, s2c, sinf, respq, cst, ck, dl, gate, now, phase, sched, nenv>>
 
 S_HFinish(c) ==
